@@ -716,10 +716,10 @@ theorem trailerRun_inv (h : Nat) (hh : 0 < h) : ∀ (cs : List Bytes) (st : Trai
 /-! ### capability lists -/
 
 theorem rstrip_snoc_ws (s : Bytes) (b : UInt8) (h : isWs b = true) : rstrip (s ++ [b]) = rstrip s := by
-  simp [rstrip, List.reverse_append, List.dropWhile_cons, h]
+  simp [rstrip, List.reverse_append, h]
 
 theorem rstrip_snoc_nonws (s : Bytes) (b : UInt8) (h : isWs b = false) : rstrip (s ++ [b]) = s ++ [b] := by
-  simp [rstrip, List.reverse_append, List.dropWhile_cons, h]
+  simp [rstrip, List.reverse_append, h]
 
 theorem splitOn_ne_nil (sep : UInt8) : ∀ s : Bytes, splitOn sep s ≠ [] := by
   intro s
@@ -849,7 +849,7 @@ theorem strip_capline (caps : List Bytes) (h : CapsWF caps) :
   rw [this]
   have w32 : isWs 32 = true := by decide
   rw [e0, hJ]
-  simp [lstrip, List.dropWhile_cons, w32, hb0]
+  simp [lstrip, w32, hb0]
 
 /-! ### side-band: the packets a sequence of writes produces -/
 
@@ -897,8 +897,8 @@ theorem sbPairs_channel (ch a : UInt8) (cs : List Bytes) :
   | cons c cs ih =>
     by_cases h : a = ch
     · simp only [h, if_true] at ih ⊢
-      simp [List.filter_cons, ih]
+      simp [ih]
     · simp only [h, if_false] at ih ⊢
-      simp [List.filter_cons, h, ih]
+      simp [h, ih]
 
 end Dulwich.PktLine
